@@ -17,4 +17,27 @@ theorem durGo_sum (ts : List (Nat × DUnit)) (d r : Nat) (h : durGo d ts = some 
     have := ih (d + v * u.nanos) h (by omega)
     omega
 
+theorem nanos_pos (u : DUnit) : 1 ≤ u.nanos := by cases u <;> decide
+
+/-- acceptance: while the running total stays within 2^63 the loop never rejects and returns the exact total -/
+theorem durGo_accepts (ts : List (Nat × DUnit)) (d : Nat) (h : d + durTotal ts ≤ 2 ^ 63) :
+    durGo d ts = some (d + durTotal ts) := by
+  induction ts generalizing d with
+  | nil => simp [durGo, durTotal]
+  | cons t ts ih =>
+    obtain ⟨v, u⟩ := t
+    simp only [durTotal] at h
+    have hu := nanos_pos u
+    have hv : v ≤ v * u.nanos := Nat.le_mul_of_pos_right v hu
+    have h1 : ¬ v > 2 ^ 63 := by omega
+    have h2 : ¬ v > 2 ^ 63 / u.nanos := by
+      have : v ≤ 2 ^ 63 / u.nanos := (Nat.le_div_iff_mul_le hu).2 (by omega)
+      omega
+    have hm : (d + v * u.nanos) % 2 ^ 64 = d + v * u.nanos := Nat.mod_eq_of_lt (by omega)
+    have h3 : ¬ (d + v * u.nanos > 2 ^ 63) := by omega
+    simp only [durGo, h1, h2, if_false, hm, h3]
+    rw [ih (d + v * u.nanos) (by omega)]
+    simp only [durTotal]
+    congr 1; omega
+
 end Sygma.C20
